@@ -54,9 +54,11 @@ KINDS = {
     "rend": "ALTER TABLE {T} RENAME COLUMN d TO dd;",
     "idxl": "CREATE INDEX i3 ON {T} (c desc, a asc, b);",
     "fk1": "ALTER TABLE {T} ADD FOREIGN KEY ({b}) REFERENCES o (x);",
+    "fkbb": "ALTER TABLE {T} ADD FOREIGN KEY (bb) REFERENCES o (x);",  # a key over the column a RENAME produced
+    "fkd": "ALTER TABLE {T} ADD CONSTRAINT fkd FOREIGN KEY (d) REFERENCES o (y);",  # ... and over a column an ADD produced
 }
 MODES = ["sql", "bigquery"]
-D3Q_KINDS = ["add", "ifex", "dropd", "rend", "drop", "rename", "fk1", "modcol"]
+D3Q_KINDS = ["add", "ifex", "dropd", "rend", "drop", "rename", "fk1", "modcol", "fkbb", "fkd"]
 D3Q_TABS = ["s1.t", "t"]
 D3_KINDS = ["add", "drop", "rename", "modcol", "uq1", "def", "fk", "idx"]
 D3_TABS = ["s1.t", "s2.t", "t"]
@@ -85,7 +87,7 @@ def stmt(op):
 def bounds(tier):
     return {"tables": 5, "kinds": len(KINDS), "spellings": "6 x 6 (schema x table) x 3 (column)", "output_modes": MODES,
             "depth": "1 (all spellings), 2 (all kind/target pairs x 2 modes), 3 (%s)" % (
-                "24^3 + 16^3 triples" if tier == "thorough" else "16^3 triples over the column-list kinds on 2 tables")}
+                "24^3 + 20^3 triples" if tier == "thorough" else "20^3 triples over the column-list kinds on 2 tables")}
 
 
 def gen_cases(tier):
@@ -188,10 +190,11 @@ def apply(m, op):
         for n_, r_ in (("a", "x"), ("c", "y")):
             A.setdefault("columns", []).append([n_, r_])
             # (an ALTER ... FOREIGN KEY on an existing column adds no new column)
-    elif k == "fk1":
-        A.setdefault("columns", []).append([b, "x"])
-        if nm(b) not in names:
-            m["undef"] = True  # a key over a column that no longer exists: the statement does not say what happens
+    elif k in ("fk1", "fkbb", "fkd"):
+        col, rc = {"fk1": (b, "x"), "fkbb": ("bb", "x"), "fkd": ("d", "y")}[k]
+        A.setdefault("columns", []).append([col, rc])
+        if nm(col) not in names:
+            m["undef"] = True  # a key over a column that does not (or no longer) exist: the statement does not say what happens
     elif k == "idxl":
         m["index"].append({"index_name": "i3", "unique": False, "columns": ["c", "a", "b"], "orders": ["DESC", "ASC", "ASC"]})
     elif k == "idx":
@@ -236,13 +239,18 @@ def features(case):
     return sorted(set(f))
 
 
+_BASE = {}
+
+
 def evaluate(case):
     tabs = case["tabs"]
     base_ddl = "\n".join(TABLES[x][2] for x in tabs) + "\n"
     ddl = base_ddl + "\n".join(stmt(op) for op in case["ops"])
     mode = case.get("mode", "sql")
     skey = "dataset" if mode == "bigquery" else "schema"
-    r0 = run_ddl(base_ddl, run={"output_mode": mode})
+    if (base_ddl, mode) not in _BASE:
+        _BASE[(base_ddl, mode)] = run_ddl(base_ddl, run={"output_mode": mode})
+    r0 = _BASE[(base_ddl, mode)]
     r = run_ddl(ddl, run={"output_mode": mode})
     diffs = []
     if case.get("undefined"):
